@@ -47,7 +47,12 @@ func oracleC10(p *Plan, res *Result, exact bool) *common.Fail {
 	reconnecting, reconnSince := false, int64(0)
 	connected := false
 	sockUsable := true
-	for _, e := range evs[:first.i0] {
+	for k, e := range evs {
+		// everything before the Close call, plus whatever happened at the very instant of the call (a
+		// disconnect request taken at that instant starts a reconnect that Close then has to wait for)
+		if k >= first.i0 && e.T > first.t0 {
+			break
+		}
 		switch {
 		case e.K == "conn<":
 			connected = e.Err == ""
